@@ -96,13 +96,49 @@ def run_history(case, stats: Stats | None):
         x.dispose()
 
 
+def run_twin(case, stats: Stats | None):
+    """Two clients of the same generation in one process, each against its own console and installation, driven in
+    lock step: each model must follow its own console only (no state shared through classes or module globals)."""
+    from pav import fakenet
+    a, b = case["twin"]
+    xs = []
+    try:
+        try:
+            for c in (a, b):
+                xs.append(apiops.ApiInterp(ID, c["inst"], c["state"]))
+            for x in xs:
+                fakenet._CURRENT[0] = x.rig.net
+                x.check_model("after both clients were initialised")
+            for i in range(max(len(a["ops"]), len(b["ops"]))):
+                for x, c in zip(xs, (a, b)):
+                    if i < len(c["ops"]):
+                        fakenet._CURRENT[0] = x.rig.net
+                        x.do(c["ops"][i])
+                for x in xs:
+                    fakenet._CURRENT[0] = x.rig.net
+                    x.check_model(f"after step {i} of the other client")
+        except Violation as v:
+            v.case = case
+            v.what = "two clients in one process: " + v.what
+            raise
+        if stats is not None:
+            stats.case(case, True, classes=["twin-clients", f"gen{xs[0].gen}"],
+                       sample={"gen": xs[0].gen, "acs": [len(a["inst"]["acs"]), len(b["inst"]["acs"])],
+                               "ops": [len(a["ops"]), len(b["ops"])]})
+    finally:
+        for x in xs:
+            x.dispose()
+
+
 def shards(tier: str):
     n, reps, mx = (120, 8, 30) if tier == "quick" else (600, 16, 80)
-    return [{"gen": g, "n": n, "k": k, "max_ops": mx} for g in (4, 5) for k in range(reps)]
+    out = [{"gen": g, "n": n, "k": k, "max_ops": mx} for g in (4, 5) for k in range(reps)]
+    out += [{"gen": g, "n": n // 3, "k": k, "max_ops": mx // 2, "twin": True} for g in (4, 5) for k in range(2)]
+    return out
 
 
 def floors(tier: str):
-    f = {"partial-frame": 50, "auto-variant": 50, "three-frames-one-entity": 50}
+    f = {"partial-frame": 50, "auto-variant": 50, "three-frames-one-entity": 50, "twin-clients": 60}
     for m in ("auto", "heat", "dry", "fan", "cool", "auto_heat", "auto_cool"):
         f[f"mode:{m}"] = 20
     for fan in ("ia_quiet", "ia_turbo", "turbo", "auto"):
@@ -112,13 +148,19 @@ def floors(tier: str):
 
 def run_shard(spec, seed: int, tier: str):
     stats = Stats(ID)
-    drive(stats, lambda s: given_test(_history(spec["gen"], spec["max_ops"]), lambda c: stats.guard(run_history, c, stats), s, spec["n"]), seed)
+    if spec.get("twin"):
+        twin = st.tuples(_history(spec["gen"], spec["max_ops"]), _history(spec["gen"], spec["max_ops"])).map(lambda t: {"twin": list(t)})
+        drive(stats, lambda s: given_test(twin, lambda c: stats.guard(run_twin, c, stats), s, spec["n"]), seed)
+    else:
+        drive(stats, lambda s: given_test(_history(spec["gen"], spec["max_ops"]), lambda c: stats.guard(run_history, c, stats), s, spec["n"]), seed)
     return stats.result()
 
 
 def replay(case):
     try:
-        if "ops" in case and case["ops"] and case["ops"][0][0] == "init":
+        if "twin" in case:
+            run_twin(case, None)
+        elif "ops" in case and case["ops"] and case["ops"][0][0] == "init":
             inst, state, ops = case["ops"][0][1], case["ops"][0][2], case["ops"][1:]
             run_history({"inst": inst, "state": state, "ops": ops}, None)
         else:
